@@ -299,6 +299,7 @@ class Waiting(State):
     DONE_CALLBACK = 'DONE_CALLBACK'
 
     _interruption = None
+    _wakeup: Optional[Tuple[bool, Any]] = None  # outcome that arrived while an interruption was being delivered
 
     def __str__(self) -> str:
         state_info = super().__str__()
@@ -340,8 +341,9 @@ class Waiting(State):
             self._waiting_future.set_result(NULL)
 
     def interrupt(self, reason: Any) -> None:
-        # This will cause the future in execute() to raise the exception
-        self._waiting_future.set_exception(reason)
+        # This will cause the future in execute() to raise the exception, unless it is about to return anyway
+        if not self._waiting_future.done():
+            self._waiting_future.set_exception(reason)
 
     async def execute(self) -> State:  # type: ignore
         try:
@@ -351,6 +353,9 @@ class Waiting(State):
             # state is back to how it was before the interruption so that we can be
             # re-executed
             self._waiting_future = futures.Future()
+            if self._wakeup is not None:
+                self._deliver(*self._wakeup)
+                self._wakeup = None
             raise
 
         if result == NULL:
@@ -363,10 +368,24 @@ class Waiting(State):
     def resume(self, value: Any = NULL) -> None:
         assert self._waiting_future is not None, 'Not yet waiting'
 
+        self._deliver(True, value)
+
+    def _deliver(self, success: bool, value: Any) -> None:
+        """Complete the wait with a result or an exception, at most once."""
         if self._waiting_future.done():
+            if (
+                self._wakeup is None
+                and not self._waiting_future.cancelled()
+                and isinstance(self._waiting_future.exception(), Interruption)
+            ):
+                # An interruption is being delivered: keep the outcome for when the wait is re-armed
+                self._wakeup = (success, value)
             return
 
-        self._waiting_future.set_result(value)
+        if success:
+            self._waiting_future.set_result(value)
+        else:
+            self._waiting_future.set_exception(value)
 
 
 class Excepted(State):
